@@ -232,12 +232,22 @@ pub fn cfg_to_json(c: &CfgSpec) -> Value {
     })).collect::<Vec<_>>()})
 }
 
+/// the modes as the scanning-level legs hand them to the API (token types concretised, ttmap)
 pub fn describe_modes(modes: &[RealMode]) -> Value {
+    describe_with(modes, crate::ttmap::conc)
+}
+
+/// the modes with token types as written (automaton-level legs)
+pub fn describe_modes_raw(modes: &[RealMode]) -> Value {
+    describe_with(modes, |t| t)
+}
+
+fn describe_with(modes: &[RealMode], f: fn(usize) -> usize) -> Value {
     json!(modes.iter().map(|m| json!({
         "name": m.name,
-        "patterns": m.pats.iter().map(|p| json!({"pattern": p.pattern, "token_type": p.tt,
+        "patterns": m.pats.iter().map(|p| json!({"pattern": p.pattern, "token_type": f(p.tt),
             "lookahead": p.la.as_ref().map(|(pos, l)| json!({"is_positive": pos, "pattern": l}))})).collect::<Vec<_>>(),
-        "transitions": m.trans,
+        "transitions": m.trans.iter().map(|(t, m)| (f(*t), *m)).collect::<Vec<_>>(),
     })).collect::<Vec<_>>())
 }
 
@@ -289,6 +299,16 @@ pub fn record_one(b: &mut Batch, r: &mut StdRng, p: &Profile, modes: &[RealMode]
         Ok(Ok(sc)) => {
             b.events.push(json!({"op": "build", "cfg": ci, "cached": cached, "ok": true}));
             w.scanners.push(sc);
+            // C12: iterators of two scanners that share one cached compilation, interleaved
+            if p.name == "c12" && cached && r.gen_bool(0.6) {
+                match scnr::ScannerBuilder::new().add_scanner_modes(&sm).build() {
+                    Ok(sc2) => {
+                        b.events.push(json!({"op": "build", "cfg": ci, "cached": true, "ok": true}));
+                        w.scanners.push(sc2);
+                    }
+                    Err(e) => b.events.push(json!({"op": "build", "cfg": ci, "cached": true, "ok": false, "err": e.to_string()})),
+                }
+            }
             drive(b, r, p, &mut w, modes.len(), texts, &input_ids);
         }
     }
@@ -317,17 +337,18 @@ fn drive(b: &mut Batch, r: &mut StdRng, p: &Profile, w: &mut World, n_modes: usi
         let text = &texts[ti];
         let off = if p.start_offset && r.gen_bool(0.5) {
             let bs = boundaries(text);
-            if r.gen_bool(0.1) { text.len() + 2 } else { *bs.choose(r).unwrap() }
+            if r.gen_bool(0.1) { if p.name == "drift" || r.gen_bool(0.5) { text.len() + 2 } else { 1_000_000 + r.gen_range(0..3) } } else { *bs.choose(r).unwrap() }
         } else { 0 };
         // WithPositions wrapper only where the profile never peeks/advances on it
         let pos = p.w[1] > 0 && p.w[2] == 0 && p.w[3] == 0;
-        let ev = json!({"op": "newiter", "sc": 1, "text": text, "off": off, "with": off == 0 && p.start_offset && r.gen_bool(0.3)});
+        let sc_id = if w.scanners.len() > 1 { r.gen_range(1..=w.scanners.len()) } else { 1 };
+        let ev = json!({"op": "newiter", "sc": sc_id, "text": text, "off": off, "with": off == 0 && p.start_offset && r.gen_bool(0.3)});
         let obs = w.exec(&ev, &cfg_of, pos);
         if obs.get("panic").is_some() {
             b.events.push(json!({"op": "panic", "during": "newiter", "msg": obs["panic"]}));
             return false;
         }
-        let mut ne = json!({"op": "newiter", "sc": 1, "inp": input_ids[ti], "off": off});
+        let mut ne = json!({"op": "newiter", "sc": sc_id, "inp": input_ids[ti], "off": off});
         if let Some(st) = obs.get("st") {
             ne["st"] = st.clone();
         }
@@ -376,7 +397,8 @@ fn drive(b: &mut Batch, r: &mut StdRng, p: &Profile, w: &mut World, n_modes: usi
             1 => (json!({"op": "nextpos", "it": it_id}), Box::new(move |o| json!({"op": "nextpos", "it": it_id, "res": o["res"], "mode": o["mode"], "sp": o["sp"], "ep": o["ep"]}))),
             2 => {
                 if its[h].pos { continue; }
-                let n = *[0usize, 1, 1, 2, 2, 3, 5].choose(r).unwrap();
+                // 1_000_000 stands for usize::MAX ("everything that is left"; exec.rs concretises it)
+                let n = *[0usize, 1, 1, 2, 2, 3, 5, 1_000_000].choose(r).unwrap();
                 (json!({"op": "peek", "it": it_id, "n": n}), Box::new(move |o| json!({"op": "peek", "it": it_id, "n": n, "kind": o["kind"], "toks": o["toks"], "target": o["target"], "mode": o["mode"]})))
             }
             3 => {
@@ -389,7 +411,7 @@ fn drive(b: &mut Batch, r: &mut StdRng, p: &Profile, w: &mut World, n_modes: usi
                 let o = if p.back_only {
                     let back: Vec<usize> = bs.iter().cloned().filter(|x| *x <= its[h].hw).collect();
                     *back.choose(r).unwrap()
-                } else if r.gen_bool(0.08) { text.len() + 3 } else { *bs.choose(r).unwrap() };
+                } else if r.gen_bool(0.08) { if p.name == "drift" || r.gen_bool(0.5) { text.len() + 3 } else { 1_000_000 + r.gen_range(0..3) } } else { *bs.choose(r).unwrap() };
                 (json!({"op": "setoffset", "it": it_id, "o": o}), Box::new(move |ob| json!({"op": "setoffset", "it": it_id, "o": o, "mode": ob["mode"]})))
             }
             5 => {
@@ -407,7 +429,8 @@ fn drive(b: &mut Batch, r: &mut StdRng, p: &Profile, w: &mut World, n_modes: usi
             }
             8 => {
                 let m = r.gen_range(0..n_modes);
-                (json!({"op": "scsetmode", "sc": 1, "m": m}), Box::new(move |o| json!({"op": "scsetmode", "sc": 1, "m": m, "scmode": o["scmode"]})))
+                let sc_id = if w.scanners.len() > 1 { r.gen_range(1..=w.scanners.len()) } else { 1 };
+                (json!({"op": "scsetmode", "sc": sc_id, "m": m}), Box::new(move |o| json!({"op": "scsetmode", "sc": sc_id, "m": m, "scmode": o["scmode"]})))
             }
             _ => {
                 let k = r.gen_range(0..n_modes + 2);
@@ -668,8 +691,95 @@ pub fn main_retrace(args: &[String]) -> i32 {
     0
 }
 
+/// C13: two VALID configurations that differ only in two token types and whose `Vec<ScannerMode>`
+/// have the same FxHash (the hasher of the scanner cache). FxHash adds each word and multiplies by
+/// an odd constant K, so moving one token type by +1 and a later one by -K^n (n = number of words
+/// hashed between them, found by trial) leaves the hash unchanged. Both are built through the
+/// cache and scanned; a cache that identifies configurations by their hash hands the second one
+/// the first one's compilation. Returns false if no collision could be constructed (another
+/// hasher): the leg then has nothing to say.
+fn record_collision(b: &mut Batch) -> bool {
+    use std::hash::BuildHasher;
+    const K: u64 = 0xf135_7aea_2e62_a9c5;
+    let mk = |t1: usize, t2: usize| {
+        vec![RealMode { name: "M0".into(), trans: vec![],
+            pats: vec![RealPat { pattern: "a".into(), tt: t1, la: None }, RealPat { pattern: "b+".into(), tt: t2, la: None }, RealPat { pattern: "c".into(), tt: 3, la: None }] }]
+    };
+    let (a1, a2) = (0x5000_0000_0000_0007usize, 0x6000_0000_0000_0001usize);
+    let hash = |x: usize, y: usize| {
+        crate::ttmap::set_extra(&[(1001, x), (1002, y)]);
+        let sm = crate::parse::to_scanner_modes(&mk(1001, 1002));
+        rustc_hash::FxBuildHasher.hash_one(&sm[..])
+    };
+    let ha = hash(a1, a2);
+    let mut found = None;
+    let mut kn: u64 = 1;
+    for _n in 1..=16 {
+        kn = kn.wrapping_mul(K);
+        let (b1, b2) = (a1 + 1, (a2 as u64).wrapping_sub(kn) as usize);
+        if hash(b1, b2) == ha && b2 != a2 {
+            found = Some((b1, b2));
+            break;
+        }
+    }
+    let Some((b1, b2)) = found else { return false };
+    crate::ttmap::set_extra(&[(1001, a1), (1002, a2), (1003, b1), (1004, b2)]);
+    let (ma, mb) = (mk(1001, 1002), mk(1003, 1004));
+    let text = "abbcab".to_string();
+    let chars: Vec<char> = vec!['a', 'b', 'c'];
+    let first_event = b.events.len() + 1;
+    b.events.push(json!({"op": "reset", "trace": 1}));
+    let syms: Vec<char> = vec![];
+    let mut w = World::new(&syms);
+    let cfg_of = |_: u64| -> Option<CfgSpec> { None };
+    for (k, m) in [&ma, &mb, &ma].iter().enumerate() {
+        let (spec, am) = atomise(m, &chars).expect("atomise");
+        b.cfgs.push(cfg_to_json(&spec));
+        let ci = b.cfgs.len();
+        let inp = b.add_input(&text, &chars, &am);
+        let built = scnr::ScannerBuilder::new().add_scanner_modes(&crate::parse::to_scanner_modes(m)).build();
+        match built {
+            Ok(sc) => {
+                b.events.push(json!({"op": "build", "cfg": ci, "cached": true, "ok": true}));
+                w.scanners.push(sc);
+            }
+            Err(e) => {
+                b.events.push(json!({"op": "build", "cfg": ci, "cached": true, "ok": false, "err": e.to_string()}));
+                continue;
+            }
+        }
+        let sc_id = w.scanners.len();
+        let _ = w.exec(&json!({"op": "newiter", "sc": sc_id, "text": text, "off": 0}), &cfg_of, false);
+        b.events.push(json!({"op": "newiter", "sc": sc_id, "inp": inp, "off": 0}));
+        let it = w.iters.len();
+        loop {
+            let obs = w.exec(&json!({"op": "next", "it": it}), &cfg_of, false);
+            if obs.get("panic").is_some() {
+                b.events.push(json!({"op": "panic", "during": "next", "it": it, "msg": obs["panic"]}));
+                break;
+            }
+            let none = obs["res"].as_array().map(|a| a.is_empty()).unwrap_or(true);
+            b.events.push(json!({"op": "next", "it": it, "res": obs["res"], "mode": obs["mode"]}));
+            if none {
+                break;
+            }
+        }
+        let _ = k;
+    }
+    b.meta.push(json!({"trace": 1, "first_event": first_event, "last_event": b.events.len(), "modes": [describe_modes(&ma), describe_modes(&mb)],
+        "inputs": [text], "what": "two valid configurations with equal FxHash, both built through the cache", "fxhash": format!("{ha:#x}")}));
+    true
+}
+
 /// `record <profile> <n traces> <seed> <out dir>`
 pub fn main(args: &[String]) -> i32 {
+    if args[0] == "c13x" {
+        let mut b = Batch::new();
+        let ok = record_collision(&mut b);
+        b.write(&args[3]);
+        println!("{}", json!({"traces": if ok { 1 } else { 0 }, "events": b.events.len(), "cfgs": b.cfgs.len(), "inputs": b.inputs.len(), "collision_constructed": ok}));
+        return 0;
+    }
     if args[0] == "c15" {
         let n: usize = args[1].parse().unwrap();
         let seed: u64 = args[2].parse().unwrap();
